@@ -155,6 +155,7 @@ NotV(a) == IF a.t = "bool" THEN BoolV(~a.v) ELSE AnyV                         \*
 LengthV(a) == CASE a.t = "any" -> AnyV
                 [] a.t = "str" -> IF Ascii(a.v) THEN IntV(Len(a.v)) ELSE AnyV
                 [] a.t = "arr" -> IntV(Len(a.v))
+                [] a.t = "biglist" -> IntV(a.n)
                 [] a.t = "obj" -> IntV(Len(a.k))
                 [] OTHER -> NothingV
 
@@ -167,8 +168,14 @@ StepFrag(f, v) ==
                           THEN <<v.v[CHOOSE i \in 1..Len(v.k) : v.k[i] = f.k]>> ELSE <<>>
       [] f.f = "nth" -> IF v.t = "arr" THEN LET n == Len(v.v) i == IF f.i < 0 THEN n + f.i ELSE f.i IN
                                             IF 0 <= i /\ i < n THEN <<v.v[i + 1]>> ELSE <<>>
+                        ELSE IF v.t = "biglist" THEN LET i == IF f.i < 0 THEN v.n + f.i ELSE f.i IN
+                                                     IF 0 <= i /\ i < v.n THEN <<IF i + 1 = v.at THEN v.v ELSE v.fill>> ELSE <<>>
                         ELSE <<>>
-      [] f.f = "wild" -> IF v.t \in {"arr", "obj"} THEN v.v ELSE <<>>
+      [] f.f = "wild" -> IF v.t \in {"arr", "obj"} THEN v.v
+                         \* a long list given by description (n members, all "fill" except member "at" = v): for "true if any
+                         \* combination is true" only the distinct members matter
+                         ELSE IF v.t = "biglist" THEN (IF v.n = 1 THEN <<v.v>> ELSE <<v.fill, v.v>>)
+                         ELSE <<>>
       [] OTHER -> <<>>
 RECURSIVE Walk(_, _)
 Walk(fr, vs) == IF fr = <<>> THEN vs ELSE Walk(Tail(fr), Flat([i \in 1..Len(vs) |-> StepFrag(Head(fr), vs[i])]))
